@@ -188,7 +188,10 @@ func (r *Run) nontrivial() bool {
 	case "C09":
 		// a state with denied cross-namespace references was judged after an incremental update
 		return p["c09_denied_refs_states"] >= 1 && r.reconciles >= 2
-	case "C01", "C05", "C03", "C15", "C08", "C10":
+	case "C10":
+		// something was admitted and something else was not, judged after an incremental update
+		return p["c10_admitted_http"]+p["c10_admitted_tcp"] >= 1 && r.reconciles >= 2
+	case "C01", "C05", "C03", "C15", "C08":
 		return p["fresh_compared"]+p["router_compared"]+p["model_compared"] >= 2 && r.reconciles >= 2
 	case "C02":
 		return p["effective_compared"] >= 1 && p["dyn_update_cmds"] >= 1
